@@ -153,7 +153,12 @@ def _job_entry(pid, job, known_sigs):
             except C.CaseInvalid:
                 return False
 
-        col.extra["shrunk"] = C.shrink(job["case"], still, budget_s=job.get("budget_s", 30))
+        best = C.shrink(job["case"], still, budget_s=job.get("budget_s", 30))
+        col.extra["shrunk"] = best
+        try:
+            col.extra["detail"] = [f.get("detail", "") for f in mod.run_case(best) if f["sig"] == sig][0]
+        except Exception:
+            col.extra["detail"] = None
     else:
         mod.run_job(job, col)
     return col.result()
@@ -278,7 +283,10 @@ def main(argv):
             for fut in cf.as_completed(futs):
                 j = futs[fut]
                 try:
-                    shrunk[j["sig"]] = fut.result()["extra"]["shrunk"]
+                    ex_ = fut.result()["extra"]
+                    shrunk[j["sig"]] = ex_["shrunk"]
+                    if ex_.get("detail"):
+                        failures[j["sig"]]["detail"] = ex_["detail"]
                 except Exception:
                     shrunk[j["sig"]] = j["case"]
         for sig, f in sorted(failures.items()):
